@@ -36,7 +36,7 @@ Section Conf.
     match v with
     | None => True
     | Some e => (x_mk e = true -> In q cr) /\
-                (In q cr -> x_key e = KNew q /\ forall t, o_utime o = Some t -> d_mtime (x_d e) = t)
+                (In q cr -> x_key e = KNew q /\ mkfacts o (x_d e))
     end.
   Definition G (X : xview) (cr : list (list (list N))) : Prop := forall q, Gp cr q (X q).
 
@@ -58,17 +58,22 @@ Section Conf.
 
   Lemma info_time_ut sd t : o_utime o = Some t -> info_time o sd = t.
   Proof. unfold info_time. intros ->. auto. Qed.
+  Lemma info_owner_ch sd u g : o_chown o = Some (u, g) -> info_owner o sd = (u, g).
+  Proof. unfold info_owner. intros ->. auto. Qed.
 
   Lemma Gp_copied cr q s old b : Gp cr q old -> Gp cr q (Some (copied o ms multi s old b q)).
   Proof.
     intro H. unfold copied.
     assert (Hnew : Gp cr q (Some (new_entry o ms multi s q))).
-    { unfold new_entry, Gp. cbn [x_mk x_key x_d d_mtime]. rewrite Hmulti, andb_false_r.
-      split; [discriminate|]. intros _. split; auto. apply info_time_ut. }
+    { unfold new_entry, Gp, mkfacts. cbn [x_mk x_key x_d d_mtime d_uid d_gid]. rewrite Hmulti, andb_false_r.
+      split; [discriminate|]. intros _. split; auto. split; [apply info_time_ut|].
+      intros u g Hc. rewrite (info_owner_ch _ _ _ Hc). auto. }
     destruct old as [e|]; auto.
     destruct (is_dir (sdent s) && is_dir (x_d e)); auto. simpl in H. destruct H as [H1 H2].
-    destruct b; unfold Gp; cbn [x_mk x_key x_d d_mtime set_mtime set_xattrs]; split; auto;
-      intro Hin; destruct (H2 Hin) as [K1 K2]; split; auto; apply info_time_ut.
+    destruct b; unfold Gp; cbn [x_mk x_key x_d]; split; auto;
+      intro Hin; destruct (H2 Hin) as [K1 [K2 K3]]; split; auto; unfold mkfacts;
+      cbn [d_mtime d_uid d_gid set_mtime set_xattrs set_perm set_owner]; split; auto; try apply info_time_ut.
+    intros u g Hc. rewrite (info_owner_ch _ _ _ Hc). auto.
   Qed.
 
   Lemma G_ov n T tp X cr : G X cr -> G (ov n T tp X) cr.
